@@ -282,15 +282,24 @@ def generate(prop, ctx=None, write=True):
             for m, sites in r["rng"].items():
                 if not r["methods"].get(m) and not sites:
                     continue
+                if m == "fit" and r["methods"].get(m):
+                    # `fit` must re-derive its generator from the constructor parameter: a `random_state_` that is
+                    # read before it is (certainly) written is carried over from earlier calls
+                    _, _, hl = abscheck.history_free(r["params"], r["methods"][m])
+                    seen_c = set()
+                    for ld in hl:
+                        if ld.get("attr") == "random_state_" and (ld["file"], ld["line"]) not in seen_c:
+                            seen_c.add((ld["file"], ld["line"]))
+                            sites = sites + [("carried", dict(file=ld["file"], line=ld["line"], text=f"[{ld['kind']}] " + ld["text"]))]
                 name = f"rng_{c.name}_{m}"
-                pred = all(k not in ("global", "unseeded") for k, _ in sites)
+                pred = all(k not in ("global", "unseeded", "carried") for k, _ in sites)
                 lst = ", ".join("." + k for k, _ in sites)
                 for k, meta in sites:
                     out.append(f"-- {k:9s} {meta['file']}:{meta['line']}  {meta['text'][:100]}")
                 out.append(f"def {name} : List Src := [{lst}]")
                 out.append(f"theorem {name}_noGlobal : NoGlobal {name} = {'true' if pred else 'false'} := by decide")
                 out.append("")
-                leads = [dict(kind="rng-" + k, **meta) for k, meta in sites if k in ("global", "unseeded")]
+                leads = [dict(kind="rng-" + k, **meta) for k, meta in sites if k in ("global", "unseeded", "carried")]
                 obligations.append(dict(name=f"{name}_noGlobal", cls=c.name, method=m, kind="rng", value=pred, leads=leads, sites=len(sites),
                                         inner=has_inner(r["methods"].get(m) or [])))
             continue
